@@ -1006,3 +1006,273 @@ pub(crate) fn retry_if_interrupted(mut f: impl FnMut() -> isize) -> io::Result<i
         }
     }
 }
+
+/// Verification hooks (feature `verif`, off by default): drive the crate-private control-message
+/// encoder / decoder without any system call, so that they can run under Miri and sanitizers.
+///
+/// Nothing in here is used by the crate itself.
+#[cfg(all(feature = "verif", any(target_os = "linux", target_os = "android")))]
+pub mod verif {
+    use std::alloc::{self, Layout};
+
+    use super::*;
+
+    /// Size of the control buffer used by `send` and `recv`
+    pub const CONTROL_LEN: usize = cmsg::LEN;
+
+    /// A value pushed through `cmsg::Encoder::push::<T>` / read back through `cmsg::decode::<T>`
+    #[derive(Debug, Clone, Copy, PartialEq, Eq)]
+    pub enum Val {
+        U8(u8),
+        U16(u16),
+        I32(i32),
+        /// `in_pktinfo { ipi_ifindex, ipi_spec_dst, ipi_addr }`
+        PktInfo4(i32, [u8; 4], [u8; 4]),
+        /// `in6_pktinfo { ipi6_addr, ipi6_ifindex }`
+        PktInfo6([u8; 16], u32),
+        /// `timespec { tv_sec, tv_nsec }`
+        Timespec(i64, i64),
+    }
+
+    /// One control message as found in a buffer
+    #[derive(Debug, Clone, PartialEq, Eq)]
+    pub struct RawCmsg {
+        pub level: i32,
+        pub ty: i32,
+        /// `cmsg_len` as stored in the header
+        pub cmsg_len: usize,
+        /// Offset of the header from the start of the control buffer
+        pub offset: usize,
+        /// Payload bytes (`cmsg_len - CMSG_LEN(0)` bytes after the header)
+        pub data: Vec<u8>,
+    }
+
+    /// What `prepare_msg` produced for a transmit
+    #[derive(Debug, Clone)]
+    pub struct Prepared {
+        pub controllen: usize,
+        pub control_is_null: bool,
+        pub cmsgs: Vec<RawCmsg>,
+        pub iov_len: usize,
+        pub name: SocketAddr,
+    }
+
+    /// Zeroed, 8-aligned heap buffer of exactly `len` bytes, so that tools see the true bounds
+    struct CtrlBuf {
+        ptr: *mut u8,
+        layout: Option<Layout>,
+    }
+
+    impl CtrlBuf {
+        fn new(len: usize) -> Self {
+            if len == 0 {
+                return Self {
+                    ptr: ptr::NonNull::<cmsg::Aligned<[u8; 0]>>::dangling().as_ptr() as *mut u8,
+                    layout: None,
+                };
+            }
+            let layout =
+                Layout::from_size_align(len, align_of::<cmsg::Aligned<[u8; 0]>>()).unwrap();
+            let ptr = unsafe { alloc::alloc_zeroed(layout) };
+            assert!(!ptr.is_null());
+            Self {
+                ptr,
+                layout: Some(layout),
+            }
+        }
+    }
+
+    impl Drop for CtrlBuf {
+        fn drop(&mut self) {
+            if let Some(layout) = self.layout {
+                unsafe { alloc::dealloc(self.ptr, layout) }
+            }
+        }
+    }
+
+    fn hdr_over(buf: &CtrlBuf, len: usize) -> libc::msghdr {
+        let mut hdr: libc::msghdr = unsafe { mem::zeroed() };
+        hdr.msg_control = buf.ptr as _;
+        hdr.msg_controllen = len as _;
+        hdr
+    }
+
+    /// Walks the control buffer of `hdr` with `cmsg::Iter` and copies out what it yields.
+    ///
+    /// # Safety
+    /// `hdr.msg_control` must be valid for `hdr.msg_controllen` initialised bytes.
+    unsafe fn collect(hdr: &libc::msghdr) -> Vec<RawCmsg> {
+        let base = hdr.msg_control as usize;
+        let hdr_len = unsafe { libc::CMSG_LEN(0) } as usize;
+        let mut out = Vec::new();
+        for c in unsafe { cmsg::Iter::new(hdr) } {
+            #[allow(clippy::unnecessary_cast)]
+            let cmsg_len = c.cmsg_len as usize;
+            let n = cmsg_len.saturating_sub(hdr_len);
+            let data = unsafe { std::slice::from_raw_parts(libc::CMSG_DATA(c), n) }.to_vec();
+            out.push(RawCmsg {
+                level: c.cmsg_level,
+                ty: c.cmsg_type,
+                cmsg_len,
+                offset: c as *const _ as usize - base,
+                data,
+            });
+        }
+        out
+    }
+
+    /// Encodes `msgs` with `cmsg::Encoder` into a zeroed control buffer of exactly `buf_len`
+    /// bytes, then iterates it with `cmsg::Iter` and reads every payload back with
+    /// `cmsg::decode::<T>`.
+    ///
+    /// Returns the final `msg_controllen`, the raw control messages and the decoded values.
+    /// Panics (documented `Encoder::push` contract) if the buffer is too small.
+    pub fn cmsg_roundtrip(
+        buf_len: usize,
+        msgs: &[(i32, i32, Val)],
+    ) -> (usize, Vec<RawCmsg>, Vec<(i32, i32, Val)>) {
+        let buf = CtrlBuf::new(buf_len);
+        let mut hdr = hdr_over(&buf, buf_len);
+        {
+            let mut enc = unsafe { cmsg::Encoder::new(&mut hdr) };
+            for &(level, ty, val) in msgs {
+                match val {
+                    Val::U8(x) => enc.push(level, ty, x),
+                    Val::U16(x) => enc.push(level, ty, x),
+                    Val::I32(x) => enc.push(level, ty, x),
+                    Val::PktInfo4(ifindex, spec_dst, addr) => enc.push(
+                        level,
+                        ty,
+                        libc::in_pktinfo {
+                            ipi_ifindex: ifindex,
+                            ipi_spec_dst: libc::in_addr {
+                                s_addr: u32::from_ne_bytes(spec_dst),
+                            },
+                            ipi_addr: libc::in_addr {
+                                s_addr: u32::from_ne_bytes(addr),
+                            },
+                        },
+                    ),
+                    Val::PktInfo6(addr, ifindex) => enc.push(
+                        level,
+                        ty,
+                        libc::in6_pktinfo {
+                            ipi6_addr: libc::in6_addr { s6_addr: addr },
+                            ipi6_ifindex: ifindex as _,
+                        },
+                    ),
+                    Val::Timespec(sec, nsec) => enc.push(
+                        level,
+                        ty,
+                        libc::timespec {
+                            tv_sec: sec as _,
+                            tv_nsec: nsec as _,
+                        },
+                    ),
+                }
+            }
+            enc.finish();
+        }
+        #[allow(clippy::unnecessary_cast)]
+        let controllen = hdr.msg_controllen as usize;
+        let raw = unsafe { collect(&hdr) };
+        let mut decoded = Vec::new();
+        for (i, c) in unsafe { cmsg::Iter::new(&hdr) }.enumerate() {
+            let Some(&(_, _, sent)) = msgs.get(i) else {
+                break;
+            };
+            let val = unsafe {
+                match sent {
+                    Val::U8(_) => Val::U8(cmsg::decode::<u8, libc::cmsghdr>(c)),
+                    Val::U16(_) => Val::U16(cmsg::decode::<u16, libc::cmsghdr>(c)),
+                    Val::I32(_) => Val::I32(cmsg::decode::<i32, libc::cmsghdr>(c)),
+                    Val::PktInfo4(..) => {
+                        let p = cmsg::decode::<libc::in_pktinfo, libc::cmsghdr>(c);
+                        Val::PktInfo4(
+                            p.ipi_ifindex,
+                            p.ipi_spec_dst.s_addr.to_ne_bytes(),
+                            p.ipi_addr.s_addr.to_ne_bytes(),
+                        )
+                    }
+                    Val::PktInfo6(..) => {
+                        let p = cmsg::decode::<libc::in6_pktinfo, libc::cmsghdr>(c);
+                        #[allow(clippy::unnecessary_cast)]
+                        Val::PktInfo6(p.ipi6_addr.s6_addr, p.ipi6_ifindex as u32)
+                    }
+                    Val::Timespec(..) => {
+                        let p = cmsg::decode::<libc::timespec, libc::cmsghdr>(c);
+                        #[allow(clippy::unnecessary_cast)]
+                        Val::Timespec(p.tv_sec as i64, p.tv_nsec as i64)
+                    }
+                }
+            };
+            decoded.push((c.cmsg_level, c.cmsg_type, val));
+        }
+        (controllen, raw, decoded)
+    }
+
+    /// Runs the real `prepare_msg` (the function `send` uses) for `transmit` and reports the
+    /// message header it built.
+    pub fn encode_transmit(
+        transmit: &Transmit<'_>,
+        encode_src_ip: bool,
+        sendmsg_einval: bool,
+    ) -> Prepared {
+        let mut hdr: libc::msghdr = unsafe { mem::zeroed() };
+        let mut iov: libc::iovec = unsafe { mem::zeroed() };
+        let mut ctrl = cmsg::Aligned([0u8; cmsg::LEN]);
+        let dst_addr = socket2::SockAddr::from(transmit.destination);
+        prepare_msg(
+            transmit,
+            &dst_addr,
+            &mut hdr,
+            &mut iov,
+            &mut ctrl,
+            encode_src_ip,
+            sendmsg_einval,
+        );
+        #[allow(clippy::unnecessary_cast)]
+        let controllen = hdr.msg_controllen as usize;
+        assert!(controllen <= cmsg::LEN);
+        let control_is_null = hdr.msg_control.is_null();
+        let cmsgs = if control_is_null {
+            Vec::new()
+        } else {
+            unsafe { collect(&hdr) }
+        };
+        let mut storage: libc::sockaddr_storage = unsafe { mem::zeroed() };
+        unsafe {
+            ptr::copy_nonoverlapping(
+                hdr.msg_name as *const u8,
+                &mut storage as *mut _ as *mut u8,
+                (hdr.msg_namelen as usize).min(size_of::<libc::sockaddr_storage>()),
+            );
+        }
+        Prepared {
+            controllen,
+            control_is_null,
+            cmsgs,
+            iov_len: iov.iov_len,
+            name: decode_socket_addr(&storage).expect("AF_INET or AF_INET6"),
+        }
+    }
+
+    /// Runs the real `decode_recv` (the function `recv` uses) over a control buffer holding
+    /// exactly the bytes of `control`, as if the kernel had returned them for a datagram of
+    /// `len` bytes from `src`.
+    pub fn decode_control(control: &[u8], src: SocketAddr, len: usize) -> io::Result<RecvMeta> {
+        let buf = CtrlBuf::new(control.len());
+        unsafe { ptr::copy_nonoverlapping(control.as_ptr(), buf.ptr, control.len()) };
+        let hdr = hdr_over(&buf, control.len());
+        let mut name = MaybeUninit::<libc::sockaddr_storage>::zeroed();
+        let addr = socket2::SockAddr::from(src);
+        unsafe {
+            ptr::copy_nonoverlapping(
+                addr.as_ptr() as *const u8,
+                name.as_mut_ptr() as *mut u8,
+                addr.len() as usize,
+            );
+        }
+        decode_recv(&name, &hdr, len)
+    }
+}
